@@ -13,17 +13,6 @@ open Verif.Spec.C09CssTok
 
 /-! ## stop code points -/
 
-/-- a code point that neither continues a token that ended in front of it nor is absorbed by it: anything but name
-    code points, newlines, `\`, `.`, `+`, `%`, `(`, `*`, `>` (and `!`, see `stopStr`) -/
-def U (c : Char) : Bool :=
-  !(isName c || isNl c || c == '\\' || c == '.' || c == '+' || c == '%' || c == '(' || c == '*' || c == '>')
-
-/-- what may follow a lexeme: a stop code point other than `!`, or `!` not followed by `-` (the `!important` the
-    writer appends; `<` `!` `--` would be a CDO token) -/
-def stopStr : List Char → Bool
-  | c :: r => U c && (c != '!' || r.head? != some '-')
-  | [] => false
-
 theorem U_space : U ' ' = true := by decide
 
 structure UF (c : Char) : Prop where
@@ -1257,6 +1246,249 @@ theorem next_loc (n m : Nat) (p : List Char) (c : Char) (r : List Char) (tt : TT
     · simp only [c21, if_true] at h ⊢; exact hid h
     simp only [c21, Bool.false_eq_true, if_false] at h ⊢
     exact h
+
+
+theorem numeric_types (n : Nat) (s : List Char) :
+    (numeric n s).1 = .dimension ∨ (numeric n s).1 = .percentage ∨ (numeric n s).1 = .number := by
+  simp only [numeric]
+  split
+  · simp
+  · split <;> simp
+
+/-- token types that are decided without an ident-like or numeric scan -/
+def simpleTypes : List TT :=
+  [.hash, .delim, .leftParen, .rightParen, .comma, .cdc, .comment, .colon, .semicolon, .cdo, .atKeyword,
+   .leftBracket, .rightBracket, .leftBrace, .rightBrace]
+
+/-- how `next` dispatches on a first code point that is neither white space nor a quote -/
+theorem next_dispatch (n : Nat) (x : Char) (r : List Char) (hw : isWs x = false) (hq : isQuote x = false) :
+    (next n (x :: r) = identLike n (x :: r) ∧
+      ((x == '-') = true ∨ (x == '\\') = true ∨ isNameStart x = true)) ∨
+    next n (x :: r) = numeric n (x :: r) ∨
+    (next n (x :: r)).1 ∈ simpleTypes := by
+  simp only [next, hw, hq, Bool.false_eq_true, if_false]
+  by_cases c3 : (x == '#') = true
+  · simp only [c3, if_true]; right; right; split <;> simp [simpleTypes]
+  simp only [c3, Bool.false_eq_true, if_false]
+  by_cases c4 : (x == '(') = true
+  · simp only [c4, if_true]; right; right; simp [simpleTypes]
+  simp only [c4, Bool.false_eq_true, if_false]
+  by_cases c5 : (x == ')') = true
+  · simp only [c5, if_true]; right; right; simp [simpleTypes]
+  simp only [c5, Bool.false_eq_true, if_false]
+  by_cases c6 : (x == '+') = true
+  · simp only [c6, if_true]
+    split
+    · right; left; rfl
+    · right; right; simp [simpleTypes]
+  simp only [c6, Bool.false_eq_true, if_false]
+  by_cases c7 : (x == ',') = true
+  · simp only [c7, if_true]; right; right; simp [simpleTypes]
+  simp only [c7, Bool.false_eq_true, if_false]
+  by_cases c8 : (x == '-') = true
+  · simp only [c8, if_true]
+    split
+    · right; left; rfl
+    · split
+      · right; right; simp [simpleTypes]
+      · split
+        · left; exact ⟨rfl, by simp_all⟩
+        · right; right; simp [simpleTypes]
+  simp only [c8, Bool.false_eq_true, if_false]
+  by_cases c9 : (x == '.') = true
+  · simp only [c9, if_true]
+    split
+    · right; left; rfl
+    · right; right; simp [simpleTypes]
+  simp only [c9, Bool.false_eq_true, if_false]
+  by_cases c10 : (x == '/') = true
+  · simp only [c10, if_true]; right; right; split <;> simp [simpleTypes]
+  simp only [c10, Bool.false_eq_true, if_false]
+  by_cases c11 : (x == ':') = true
+  · simp only [c11, if_true]; right; right; simp [simpleTypes]
+  simp only [c11, Bool.false_eq_true, if_false]
+  by_cases c12 : (x == ';') = true
+  · simp only [c12, if_true]; right; right; simp [simpleTypes]
+  simp only [c12, Bool.false_eq_true, if_false]
+  by_cases c13 : (x == '<') = true
+  · simp only [c13, if_true]; right; right; split <;> simp [simpleTypes]
+  simp only [c13, Bool.false_eq_true, if_false]
+  by_cases c14 : (x == '@') = true
+  · simp only [c14, if_true]; right; right; split <;> simp [simpleTypes]
+  simp only [c14, Bool.false_eq_true, if_false]
+  by_cases c15 : (x == '[') = true
+  · simp only [c15, if_true]; right; right; simp [simpleTypes]
+  simp only [c15, Bool.false_eq_true, if_false]
+  by_cases c16 : (x == '\\') = true
+  · simp only [c16, if_true]
+    split
+    · left; exact ⟨rfl, by simp_all⟩
+    · right; right; simp [simpleTypes]
+  simp only [c16, Bool.false_eq_true, if_false]
+  by_cases c17 : (x == ']') = true
+  · simp only [c17, if_true]; right; right; simp [simpleTypes]
+  simp only [c17, Bool.false_eq_true, if_false]
+  by_cases c18 : (x == '{') = true
+  · simp only [c18, if_true]; right; right; simp [simpleTypes]
+  simp only [c18, Bool.false_eq_true, if_false]
+  by_cases c19 : (x == '}') = true
+  · simp only [c19, if_true]; right; right; simp [simpleTypes]
+  simp only [c19, Bool.false_eq_true, if_false]
+  by_cases c20 : isDigit x = true
+  · simp only [c20, if_true]; right; left; trivial
+  simp only [c20, Bool.false_eq_true, if_false]
+  by_cases c21 : isNameStart x = true
+  · simp only [c21, if_true]; left; simp
+  simp only [c21, Bool.false_eq_true, if_false]
+  right; right; simp [simpleTypes]
+
+theorem not_digit_of_nameStart {x : Char} (h : isNameStart x = true) : isDigit x = false := by
+  cases hd : isDigit x with
+  | false => rfl
+  | true =>
+    exfalso
+    simp only [isDigit, Bool.and_eq_true, decide_eq_true_eq] at hd
+    simp only [isNameStart, Bool.or_eq_true, Bool.and_eq_true, decide_eq_true_eq, beq_iff_eq] at h
+    rcases h with ((h | h) | h) | h
+    · exact absurd (Char.le_trans h.1 hd.2) (by decide)
+    · exact absurd (Char.le_trans h.1 hd.2) (by decide)
+    · subst h; exact absurd hd.2 (by decide)
+    · have h9 : x.toNat ≤ '9'.toNat := by
+        have := hd.2
+        simp only [Char.le_def, UInt32.le_iff_toNat_le] at this
+        exact this
+      have : '9'.toNat = 57 := by decide
+      omega
+
+/-- an identifier start code point always starts an ident-like token -/
+theorem next_nameStart (n : Nat) (x : Char) (r : List Char) (h : isNameStart x = true) :
+    next n (x :: r) = identLike n (x :: r) := by
+  have hd := not_digit_of_nameStart h
+  have e : ∀ y : Char, isNameStart y = false → (x == y) = false := by
+    intro y hy
+    cases hh : x == y with
+    | false => rfl
+    | true => have : x = y := by simpa using hh
+              subst this; rw [h] at hy; exact absurd hy (by decide)
+  have hw : isWs x = false := by
+    simp only [isWs, e ' ' (by decide), e '\t' (by decide), e '\n' (by decide), e '\r' (by decide),
+      e '\x0c' (by decide), Bool.or_false]
+  have hq : isQuote x = false := by
+    simp only [isQuote, e '"' (by decide), e '\'' (by decide), Bool.or_false]
+  simp only [next, hw, hq, e '#' (by decide), e '(' (by decide), e ')' (by decide), e '+' (by decide),
+    e ',' (by decide), e '-' (by decide), e '.' (by decide), e '/' (by decide), e ':' (by decide),
+    e ';' (by decide), e '<' (by decide), e '@' (by decide), e '[' (by decide), e '\\' (by decide),
+    e ']' (by decide), e '{' (by decide), e '}' (by decide), hd, h, Bool.false_eq_true, if_false, if_true]
+
+/-- `-` and two more code points decide the dispatch -/
+theorem next_minus (n : Nat) (a b : Char) (t : List Char) :
+    next n ('-' :: a :: b :: t) =
+      if (isDigit a || (a == '.' && isDigit b)) = true then numeric n ('-' :: a :: b :: t)
+      else if (a == '-' && b == '>') = true then (.cdc, 3)
+      else if (isNameStart a || a == '-' || (a == '\\' && !isNl b)) = true then identLike n ('-' :: a :: b :: t)
+      else (.delim, 1) := by
+  have h1 : isWs '-' = false := by decide
+  have h2 : isQuote '-' = false := by decide
+  have e1 : startsNumber ('-' :: a :: b :: t) = (isDigit a || (a == '.' && isDigit b)) := by simp [startsNumber]
+  have e2 : (List.take 2 (a :: b :: t) == ['-', '>']) = (a == '-' && b == '>') := by
+    simp [List.take]
+  have e3 : startsIdent ('-' :: a :: b :: t) = (isNameStart a || a == '-' || (a == '\\' && !isNl b)) := by
+    by_cases ha : a = '\\'
+    · subst ha; simp [startsIdent, validEsc]
+    · simp [startsIdent, validEsc, ha]
+  simp only [next, h1, h2, e1, e2, e3, Bool.false_eq_true, if_false,
+    show ('-' == '#') = false by decide, show ('-' == '(') = false by decide, show ('-' == ')') = false by decide,
+    show ('-' == '+') = false by decide, show ('-' == ',') = false by decide, show ('-' == '-') = true by decide, if_true]
+
+/-! ## self-delimited lexemes: strings, urls, function tokens -/
+
+/-- a closed string is read as itself whatever follows -/
+theorem next_str_any (n m : Nat) (p f : List Char)
+    (hn : p.length + 1 ≤ n) (hm : p.length + f.length ≤ m)
+    (h : next n (p ++ [' ']) = (.string, p.length)) : next m (p ++ f) = (.string, p.length) := by
+  match p with
+  | [] => simp [next, isWs, wsRun] at h
+  | x :: p' =>
+    by_cases c1 : isWs x = true
+    · simp [next, c1] at h
+    by_cases c2 : isQuote x = true
+    · simp only [List.cons_append, next, c1, c2, Bool.false_eq_true, if_false, if_true] at h ⊢
+      have hq : (x == ' ') = false := by
+        cases hh : x == ' ' with
+        | false => rfl
+        | true => have : x = ' ' := by simpa using hh
+                  subst this; simp [isWs] at c1
+      have h1 := congrArg Prod.fst h
+      have h2 := congrArg Prod.snd h
+      simp only [List.length_cons] at h1 h2 hn hm
+      have hgood : (strLen n x (p' ++ [' '])).2 = true := by
+        cases hb : (strLen n x (p' ++ [' '])).2 with
+        | true => rfl
+        | false => simp [hb] at h1
+      have hrec : strLen n x (p' ++ [' ']) = (p'.length, true) := by
+        apply Prod.ext
+        · simp only; omega
+        · exact hgood
+      rw [strLen_any n m x p' f hq (by omega) (by omega) hrec]
+      simp only [if_true, List.length_cons]
+      apply Prod.ext <;> simp <;> omega
+    · exfalso
+      have hw : isWs x = false := by simpa using c1
+      have hq : isQuote x = false := by simpa using c2
+      rcases next_dispatch n x (p' ++ [' ']) hw hq with hd | hd | hd
+      · have := identLike_types n (x :: (p' ++ [' ']))
+        rw [← hd.1] at this
+        simp only [List.cons_append] at h
+        rw [h] at this; simp at this
+      · have := numeric_types n (x :: (p' ++ [' ']))
+        rw [← hd] at this
+        simp only [List.cons_append] at h
+        rw [h] at this; simp at this
+      · simp only [List.cons_append] at h
+        rw [h] at hd; simp [simpleTypes] at hd
+
+/-- a url token whose name starts with an identifier start code point is read as itself whatever follows -/
+theorem next_url_any (n m : Nat) (x : Char) (p' f : List Char) (hx : isNameStart x = true)
+    (hn : (x :: p').length + 1 ≤ n) (hm : (x :: p').length + f.length ≤ m)
+    (h : next n ((x :: p') ++ [' ']) = (.url, (x :: p').length)) :
+    next m ((x :: p') ++ f) = (.url, (x :: p').length) := by
+  simp only [List.cons_append] at h ⊢
+  rw [next_nameStart _ _ _ hx] at h ⊢
+  exact identLike_url_any n m (x :: p') f hn hm h
+
+/-- a function token (name starting with an identifier start code point, or with `-` and at least two more code
+    points) is read as itself whatever follows -/
+theorem next_fun_any (n m : Nat) (p f : List Char)
+    (hx : isNameStart (p.headD ' ') = true ∨ (p.head? = some '-' ∧ 3 ≤ p.length))
+    (hn : p.length + 1 ≤ n) (hm : p.length + f.length ≤ m)
+    (h : next n (p ++ [' ']) = (.function, p.length)) : next m (p ++ f) = (.function, p.length) := by
+  rcases hx with hx | ⟨hx1, hx2⟩
+  · match p with
+    | [] => simp [isNameStart] at hx
+    | x :: p' =>
+      simp only [List.headD_cons] at hx
+      simp only [List.cons_append] at h ⊢
+      rw [next_nameStart _ _ _ hx] at h ⊢
+      exact identLike_fun_any n m (x :: p') f hn hm h
+  · match p, hx1, hx2 with
+    | x :: a :: b :: p'', hx1, _ =>
+      have : x = '-' := by simpa using hx1
+      subst this
+      simp only [List.cons_append] at h ⊢
+      rw [next_minus] at h ⊢
+      by_cases c1 : (isDigit a || (a == '.' && isDigit b)) = true
+      · exfalso
+        simp only [c1, if_true] at h
+        have := numeric_types n ('-' :: a :: b :: (p'' ++ [' ']))
+        rw [h] at this; simp at this
+      · simp only [c1, Bool.false_eq_true, if_false] at h ⊢
+        by_cases c2 : (a == '-' && b == '>') = true
+        · simp [c2] at h
+        · simp only [c2, Bool.false_eq_true, if_false] at h ⊢
+          by_cases c3 : (isNameStart a || a == '-' || (a == '\\' && !isNl b)) = true
+          · simp only [c3, if_true] at h ⊢
+            exact identLike_fun_any n m ('-' :: a :: b :: p'') f hn hm h
+          · simp [c3] at h
 
 
 end Verif.Proofs.C09CssTok
